@@ -74,7 +74,9 @@ func c06Specs(tier string) []*seq.Spec {
 		cfg = &msCfg{nStores: 2, nTrans: 2, keys: msKeys3[:2], vals: [][]byte{[]byte("a"), []byte("b")}, bounds: msBounds3[:3], maxCommits: 4, final: c06Final}
 		depth = 8
 	}
-	return []*seq.Spec{msSpec("multistore-commitid", cfg, depth)}
+	d := *cfg
+	d.direct = true
+	return []*seq.Spec{msSpec("multistore-commitid", cfg, depth), msSpec("multistore-commitid-direct-writes", &d, depth-1)}
 }
 
 // ---- C08: rollback ----
@@ -154,7 +156,9 @@ func c08Specs(tier string) []*seq.Spec {
 		cfg = &msCfg{nStores: 2, keys: msKeys3, vals: [][]byte{[]byte("a"), []byte("b")}, bounds: msBounds3, maxCommits: 4, final: c08Final}
 		depth = 8
 	}
-	return []*seq.Spec{msSpec("multistore-rollback", cfg, depth)}
+	d := *cfg
+	d.direct = true
+	return []*seq.Spec{msSpec("multistore-rollback", cfg, depth), msSpec("multistore-rollback-direct-writes", &d, depth-2)}
 }
 
 // ---- C09: historical reads ----
